@@ -1,0 +1,67 @@
+//go:build verif
+
+package cmap
+
+// Contracts for govc (contract-based deductive verification; see /verif/DESIGN.md).
+// This file holds only comments and is compiled only with -tags verif.
+//
+// Linearizability (C14) by the coarse-grained-locking argument of DESIGN.md §3.3: every method of mapimpl has
+// exactly one critical section; L is the state right after the acquisition (whatever other goroutines left
+// there, constrained only by the lock invariant), U the state right before the release. Each postcondition
+// relates the results and the abstract map at U to the abstract map at L by the sequential map model.
+// `tp` is the sort of values of a type parameter.
+
+//@ type mapimpl
+//@   lock lock protects m
+//@   lockinv lock self.m != nil
+
+//@ func (*mapimpl).Clear
+//@   tags C14
+//@   requires m != nil
+//@   ensures [C14.map.clear] len(at(U, m.m)) == 0 && (forall j tp :: !at(U, haskey(m.m, j)))
+//@   at call Lock#0 label L
+//@   at before call Unlock#0 label U
+
+//@ func (*mapimpl).Delete
+//@   tags C14
+//@   requires m != nil
+//@   ensures [C14.map.delete.dom] forall j tp :: at(U, haskey(m.m, j)) == (j != k && at(L, haskey(m.m, j)))
+//@   ensures [C14.map.delete.val] forall j tp :: j != k ==> at(U, m.m[j]) == at(L, m.m[j])
+//@   ensures [C14.map.delete.len] at(U, len(m.m)) == at(L, len(m.m)) - (at(L, haskey(m.m, k)) ? 1 : 0)
+//@   at call Lock#0 label L
+//@   at before call Unlock#0 label U
+
+//@ func (*mapimpl).Load
+//@   tags C14
+//@   requires m != nil
+//@   modifies nothing
+//@   ensures [C14.map.load] result1 == at(L, haskey(m.m, k)) && result == at(L, m.m[k])
+//@   ensures [C14.map.load.pure] at(U, m.m) == at(L, m.m)
+//@   at call RLock#0 label L
+//@   at before call RUnlock#0 label U
+
+//@ func (*mapimpl).LoadAndDelete
+//@   tags C14
+//@   requires m != nil
+//@   ensures [C14.map.lad.result] result1 == at(L, haskey(m.m, k)) && result == at(L, m.m[k])
+//@   ensures [C14.map.lad.dom] forall j tp :: at(U, haskey(m.m, j)) == (j != k && at(L, haskey(m.m, j)))
+//@   ensures [C14.map.lad.val] forall j tp :: j != k ==> at(U, m.m[j]) == at(L, m.m[j])
+//@   at call Lock#0 label L
+//@   at before call Unlock#0 label U
+
+//@ func (*mapimpl).Store
+//@   tags C14
+//@   requires m != nil
+//@   ensures [C14.map.store.dom] forall j tp :: at(U, haskey(m.m, j)) == (j == k || at(L, haskey(m.m, j)))
+//@   ensures [C14.map.store.val] at(U, m.m[k]) == v && (forall j tp :: j != k ==> at(U, m.m[j]) == at(L, m.m[j]))
+//@   ensures [C14.map.store.len] at(U, len(m.m)) == at(L, len(m.m)) + (at(L, haskey(m.m, k)) ? 0 : 1)
+//@   at call Lock#0 label L
+//@   at before call Unlock#0 label U
+
+//@ func (*mapimpl).Len
+//@   tags C14
+//@   requires m != nil
+//@   modifies nothing
+//@   ensures [C14.map.len] result == at(L, len(m.m))
+//@   at call RLock#0 label L
+//@   at before call RUnlock#0 label U
